@@ -76,8 +76,8 @@ theorem clordid_fresh (o : Order) (ops : List Op) :
     (builtOps o ops).Pairwise (fun a b => a.2.clOrdId ≠ b.2.clOrdId) :=
   ⟨builtOps_sorted o ops, builtOps_spec o ops, builtOps_fresh o ops⟩
 
-/-- for a root that is non-empty, single-line and does not end in `--<digits>`, the k-th request
-built carries exactly `<root>--<counter>` -/
+/-- for a root that is non-empty and does not end in `--<digits>` (line breaks allowed), the k-th
+request built carries exactly `<root>--<counter>` -/
 theorem clordid_root_k {root : Str} (g : GoodRoot root) {p q : Int} {t s ot a : Str} {o : Order}
     (hi : Order.init root p q t s ot a = .ok o) (ops : List Op) :
     ∀ cm ∈ builtOps o ops, cm.2.clOrdId = some (root ++ [45, 45] ++ dec cm.1) := by
@@ -88,29 +88,29 @@ theorem clordid_root_k {root : Str} (g : GoodRoot root) {p q : Int} {t s ot a : 
   · cases hi
     exact ⟨Or.inl rfl, fun x hx => by cases hx⟩
 
-/-- root extraction: `clord_root` gives the root back from the bare root and from every chained id -/
+/-- root extraction, as the property text reads: for EVERY root that does not itself end in the
+chaining suffix, `clord_root` gives the root back from the bare root and from every chained id -/
+theorem root_extraction_full (root : Str) (h0 : root ≠ []) (hb : ¬ ChainForm root) :
+    clordRoot root = root ∧ ∀ k, clordRoot (root ++ [45, 45] ++ dec k) = root :=
+  ⟨clordRoot_bare root hb, fun k => clordRoot_chain_dec root k h0⟩
+
 theorem root_extraction {root : Str} (g : GoodRoot root) :
     clordRoot root = root ∧ ∀ k, clordRoot (root ++ [45, 45] ++ dec k) = root :=
-  ⟨clordRoot_bare root g.line g.bare, fun k => clordRoot_chain_dec root k g.ne g.line⟩
+  root_extraction_full root g.ne g.bare
 
-/-- … precisely: on single-line text, the chained id is always cut back to what stands before the
-LAST `--<digits>` (also when that itself ends in `--<digits>`), and a text is returned unchanged
-exactly when it is not of the chain form – the excluded roots are exactly the chain-form ones -/
-theorem root_extraction_char (s : Str) (hlf : 10 ∉ s) :
+/-- … precisely: a chained id is always cut back to what stands before the LAST `--<digits>` (also
+when that itself ends in `--<digits>`), and a text is returned unchanged exactly when it is not of
+the chain form – the excluded roots are exactly the chain-form ones -/
+theorem root_extraction_char (s : Str) :
     (clordRoot s = s ↔ ¬ ChainForm s) ∧
     (s ≠ [] → ∀ k, clordRoot (s ++ [45, 45] ++ dec k) = s) :=
-  ⟨⟨fun h hc => clordRoot_cut s hlf hc h, clordRoot_bare s hlf⟩,
-   fun h0 k => clordRoot_chain_dec s k h0 hlf⟩
-
-/-- FULL statement as the property text reads (every root that does not itself end in the chaining
-suffix, single-line or not).  FALSE for roots containing a line feed (Findings/C17); the proved part
-is `root_extraction` / `root_extraction_char` (single-line roots). -/
-def root_extraction_full : Prop :=
-  ∀ root : Str, root ≠ [] → ¬ ChainForm root →
-    clordRoot root = root ∧ ∀ k, clordRoot (root ++ [45, 45] ++ dec k) = root
+  ⟨⟨fun h hc => clordRoot_cut s hc h, clordRoot_bare s⟩, fun h0 k => clordRoot_chain_dec s k h0⟩
 
 /-- excluded by the property text: a root that ends in the chaining suffix loses it ("abc--7" ↦ "abc") -/
 example : clordRoot [97, 98, 99, 45, 45, 55] = [97, 98, 99] := by decide +kernel
+/-- line breaks are harmless since /repo 6584134: "a\nb" and "a\nb--12" -/
+example : clordRoot [97, 10, 98] = [97, 10, 98] ∧
+    clordRoot ([97, 10, 98] ++ [45, 45] ++ dec 12) = [97, 10, 98] := by decide +kernel
 /-- non-vacuity: "ord" is a good root -/
 example : clordRoot [111, 114, 100] = [111, 114, 100] ∧
     clordRoot ([111, 114, 100] ++ [45, 45] ++ dec 12) = [111, 114, 100] := by decide +kernel
